@@ -265,6 +265,23 @@ Definition c02_invert (A : seq (seq F)) (doPivoting : bool) : c02_res (seq (seq 
       end
     end.
 
+(* ---- the same with DUNE_FMatrix_WITH_CHECKING defined: closed forms first test
+   `absreal(det) < FMatrixPrecision<>::absolute_limit()` (default limit 1e-80; [oabsz] stands for this test, which over
+   an exact field is det == 0) and throw FMatrixError.  solve() has the test for n = 1, 2, 3; invert() for n = 1, 2 ONLY
+   (the 3x3 branch of invert divides unchecked).  This optional mode for n <= 3 is outside property C02. *)
+Definition c02_closed_det (A : seq (seq F)) : option F :=
+  let n := c02_rows A in let a := c02_get A in
+  if Nat.eqb n 1 then Some (a 0 0)
+  else if Nat.eqb n 2 then Some (sub (mul (a 0 0) (a 1 1)) (mul (a 0 1) (a 1 0)))
+  else if Nat.eqb n 3 then Some (c02_det3 A)
+  else None.
+Definition c02_chk_singular (A : seq (seq F)) : bool :=
+  Nat.eqb (c02_rows A) (c02_cols A) && (match c02_closed_det A with Some d => oabsz ops d | None => false end).
+Definition c02_solve_chk (A : seq (seq F)) (b : seq F) (doPivoting : bool) : c02_res (seq F) :=
+  if c02_chk_singular A then C02_FMatrixError else c02_solve A b doPivoting.
+Definition c02_invert_chk (A : seq (seq F)) (doPivoting : bool) : c02_res (seq (seq F)) :=
+  if negb (Nat.eqb (c02_rows A) 3) && c02_chk_singular A then C02_FMatrixError else c02_invert A doPivoting.
+
 (* ---- FMatrixHelp::invertMatrix / invertMatrix_retTransposed (n = 1,2,3): returns (det, inverse) *)
 Definition c02_transpose (n : nat) (B : seq (seq F)) : seq (seq F) := mkseq (fun i => mkseq (fun j => c02_get B j i) n) n.
 
